@@ -117,6 +117,13 @@ func (p *Prog) trustingCalls(e entry) []ssa.CallInstruction {
 	}
 	var out []ssa.CallInstruction
 	fromParams := func(v ssa.Value) bool {
+		// values that reach the call only through the guard's own (error) result do not count
+		if e.guard != nil {
+			if gv := e.guard.Value(); gv != nil && derives(v, func(x ssa.Value) bool { return x == gv }, true) {
+				viaOther := derivesAvoiding(v, func(x ssa.Value) bool { return x == ssa.Value(e.env) || x == ssa.Value(e.keys) }, gv)
+				return viaOther
+			}
+		}
 		return derives(v, func(x ssa.Value) bool { return x == ssa.Value(e.env) || x == ssa.Value(e.keys) }, true)
 	}
 	for _, c := range allCalls(e.f) {
